@@ -638,3 +638,8 @@ fn root_relative_paths(path: &Path, depth: usize, pivot: usize) -> (&Path, &Path
             .expect("overflow determining root and relative paths"),
     )
 }
+
+#[cfg(all(kani, olson_sean_k_wax_verif))]
+mod verif_kani {
+    include!(concat!(env!("WAX_VERIF_DIR"), "/kani/walk_glob.rs"));
+}
